@@ -1,30 +1,47 @@
 #!/usr/bin/env python3
-"""Apply every seeded change under seeded/ to /repo (one at a time), run the quick check of its property,
-restore /repo, and record in seeded/<name>/meta.json + seeded/RESULTS.md which check caught it."""
+"""Apply every seeded change under seeded/ to the repository (one at a time), run the quick check of its property,
+restore the repository, and record in seeded/<name>/meta.json + seeded/RESULTS.md which check caught it.
+
+usage: tools/run_seeds.py [name-prefix ...]
+By default works on /repo from the directory this file lives in.  For a sweep that does not disturb ongoing work:
+  rsync -a --delete /verif/ /tmp/vseed/ ; git -C /repo worktree add --detach /tmp/rseed HEAD
+  VERIF_REPO=/tmp/rseed /tmp/vseed/tools/run_seeds.py ; cp results back (seeded/*/meta.json, seeded/RESULTS.md)
+(the registered checks themselves always run in /verif against /repo; this tool only tabulates detection of seeded changes)."""
 import json, os, subprocess, sys
-os.chdir('/verif')
+VERIF = os.path.dirname(os.path.dirname(os.path.abspath(__file__)))
+REPO = os.environ.get('VERIF_REPO', '/repo')
+os.chdir(VERIF)
 names = sorted(d for d in os.listdir('seeded') if os.path.isdir(f'seeded/{d}'))
 if len(sys.argv) > 1:
     names = [n for n in names if any(n.startswith(a) for a in sys.argv[1:])]
 rows = []
+
+
+def restore():
+    subprocess.run(f'git -C {REPO} checkout -q -- . ; git -C {REPO} reset -q ; git -C {REPO} clean -fdq -- pytoniq_core', shell=True)
+
+
 for n in names:
     meta = json.load(open(f'seeded/{n}/meta.json'))
     prop = meta['property']
     extra = meta.get('also_check', [])
-    subprocess.run('git -C /repo checkout -q -- .', shell=True)
-    p = subprocess.run(f'git -C /repo apply --3way /verif/seeded/{n}/patch.diff && git -C /repo reset -q', shell=True, capture_output=True, text=True)
+    restore()
+    p = subprocess.run(f'git -C {REPO} apply --3way {VERIF}/seeded/{n}/patch.diff && git -C {REPO} reset -q', shell=True, capture_output=True, text=True)
     if p.returncode != 0:
         rows.append((n, prop, 'APPLY FAILED', ''))
-        subprocess.run('git -C /repo checkout -q -- . ; git -C /repo reset -q', shell=True)
+        restore()
         continue
     res = {}
     try:
         for pr in [prop] + extra:
-            q = subprocess.run(['./check', pr, '--tier', 'quick'], capture_output=True, text=True)
-            v = [l for l in q.stdout.split('\n') if l.startswith('VIOLATION')]
-            res[pr] = {'exit': q.returncode, 'violations': v[:3]}
+            try:
+                q = subprocess.run(['./check', pr, '--tier', 'quick'], capture_output=True, text=True, timeout=1800)
+                v = [l for l in q.stdout.split('\n') if l.startswith('VIOLATION')]
+                res[pr] = {'exit': q.returncode, 'violations': v[:3]}
+            except subprocess.TimeoutExpired:
+                res[pr] = {'exit': 2, 'violations': []}
     finally:
-        subprocess.run('git -C /repo checkout -q -- . ; git -C /repo reset -q', shell=True)
+        restore()
     meta['detected_by'] = {pr: ('caught' if r['exit'] == 1 and r['violations'] else ('NO-CHECK' if r['exit'] not in (0, 1) or (r['exit'] == 1 and not r['violations']) else 'MISSED')) + (' (no-failing-input-found)' if any('no-failing' in x for x in r['violations']) else '')
                            for pr, r in res.items()}
     json.dump(meta, open(f'seeded/{n}/meta.json', 'w'), indent=1)
